@@ -21,6 +21,20 @@ from crosshair.options import AnalysisKind, AnalysisOptionSet  # noqa: E402
 from crosshair.statespace import MessageType  # noqa: E402
 from crosshair.tracers import NoTracing  # noqa: E402
 
+# Contract enforcement on callees (PEP-316 contracts inside the code under test) is not used by
+# any harness: PyKMIP has no contracts.  CrossHair's enforcement tracer nevertheless intercepts
+# every call and object construction (~40% of path time); switch it off.
+import contextlib  # noqa: E402
+import crosshair.enforce as _enforce  # noqa: E402
+
+
+@contextlib.contextmanager
+def _no_enforcement(self):
+    yield None
+
+
+_enforce.EnforcedConditions.enabled_enforcement = _no_enforcement
+
 STATS = {"queries": 0, "solver_s": 0.0, "paths": 0, "unknown": 0}
 _orig_check = z3.Solver.check
 
